@@ -114,12 +114,17 @@ class Tagged(StreamRng):
     def __init__(self, scale):
         super().__init__()
         self.scale = scale
+        self.big = False
 
     def values(self, step, start, n):
         k = self.calls
+        i = np.arange(n)
         if n > 9000:
-            raise util.HarnessError("Tagged: too many scalars in one call to keep them distinct")
-        return np.array([self.scale * (-1) ** (k + i) * (1 + 1e-3 * (k + 1) + 1e-7 * (i + 1)) for i in range(n)])
+            # a tracker that draws a large table at once: values can no longer all be told apart within the matching tolerance;
+            # `big` tells the oracle not to conclude "shared" from two matches on neighbouring table entries
+            self.big = True
+        sign = np.where((k + i) % 2 == 0, 1.0, -1.0)
+        return self.scale * sign * (1 + 1e-3 * (k + 1) + 1e-7 * ((i % 9000) + 1) + 1e-12 * (i // 9000))
 
 
 class Pattern(StreamRng):
